@@ -21,7 +21,7 @@
    and, through Flocq, on classical logic (printed below) - the same as Properties_C16.v. *)
 From Coq Require Import List ZArith Reals.
 From Flocq Require Import Core.
-From BSpl Require Import Scalar Proofs_Rounded Proofs_RoundTac.
+From BSpl Require Import Scalar Outcome Poly Forms Proofs_Rounded Proofs_RoundTac.
 From BSpl.gen Require Import RoundGen_eval RoundGen_arr RoundGen_misc RoundGen_der RoundGen_pos RoundGen_lin RoundGen_bi.
 Import ListNotations.
 Local Open Scope R_scope.
@@ -155,6 +155,43 @@ Print Assumptions C16_K_bilinear_kernel_as_compiled.
 Theorem C16_K_bilinear_kernel_as_compiled_binary64 : rounding_bi_binary64.
 Proof. exact rounding_bi_binary64_ok. Qed.
 Print Assumptions C16_K_bilinear_kernel_as_compiled_binary64.
+
+(* ---- the terms the code involves are the terms of the exact result: mag_<instance> EQUALS the
+   ---- magnitude of the model-side theorems of Properties_C16.v (C16_linear_kernel: 2 |h| eh_abs 0
+   ---- (evens a) (h h); C16_bilinear_kernel: bi_abs a b h), instance by instance; hence the code-order
+   ---- bounds relative to those magnitudes.  A kernel in which other terms take part (odd powers that
+   ---- cancel only at the end, seeded/C16c) fails r_<instance>_terms. ---- *)
+Theorem C16_K_linear_kernel_terms_are_the_exact_terms : rounding_lin_terms_are_the_exact_terms.
+Proof. exact rounding_lin_terms_are_the_exact_terms_ok. Qed.
+Print Assumptions C16_K_linear_kernel_terms_are_the_exact_terms.
+Theorem C16_K_linear_kernel_as_compiled_exact_terms : rounding_lin_bounded_exact_terms.
+Proof. exact rounding_lin_bounded_exact_terms_ok. Qed.
+Print Assumptions C16_K_linear_kernel_as_compiled_exact_terms.
+Theorem C16_K_linear_kernel_as_compiled_binary64_exact_terms : rounding_lin_binary64_exact_terms.
+Proof. exact rounding_lin_binary64_exact_terms_ok. Qed.
+Print Assumptions C16_K_linear_kernel_as_compiled_binary64_exact_terms.
+
+Theorem C16_K_bilinear_kernel_terms_are_the_exact_terms : rounding_bi_terms_are_the_exact_terms.
+Proof. exact rounding_bi_terms_are_the_exact_terms_ok. Qed.
+Print Assumptions C16_K_bilinear_kernel_terms_are_the_exact_terms.
+Theorem C16_K_bilinear_kernel_as_compiled_exact_terms : rounding_bi_bounded_exact_terms.
+Proof. exact rounding_bi_bounded_exact_terms_ok. Qed.
+Print Assumptions C16_K_bilinear_kernel_as_compiled_exact_terms.
+Theorem C16_K_bilinear_kernel_as_compiled_binary64_exact_terms : rounding_bi_binary64_exact_terms.
+Proof. exact rounding_bi_binary64_exact_terms_ok. Qed.
+Print Assumptions C16_K_bilinear_kernel_as_compiled_binary64_exact_terms.
+
+(* Horner: mag_eval_n x c.. xm = pabs [c..] (|x| + |xm|).  The model-side theorem (C16_horner) is
+   relative to pabs c (x - xm), which is BELOW this magnitude (second theorem): the generic
+   code-order bound charges the rounding of x - xm to |x| + |xm|, so for eval it is the weaker
+   statement when x and xm nearly cancel, and no combined corollary is claimed. *)
+Theorem C16_K_horner_terms_are_the_exact_terms_at_abs_sum : rounding_eval_terms_are_the_exact_terms_at_abs_sum.
+Proof. exact rounding_eval_terms_are_the_exact_terms_at_abs_sum_ok. Qed.
+Print Assumptions C16_K_horner_terms_are_the_exact_terms_at_abs_sum.
+Theorem C16_K_horner_model_magnitude_below_code_magnitude :
+  forall (c : list R) (x xm : R), pabs c (x - xm) <= pabs c (Rabs x + Rabs xm).
+Proof. exact pabs_le_code. Qed.
+Print Assumptions C16_K_horner_model_magnitude_below_code_magnitude.
 
 (* ---- non-vacuity: the binary64 bound at concrete dyadic arguments (generated with the kernels, so
    ---- that the evaluated magnitude follows the code) ---- *)
